@@ -26,7 +26,8 @@ func TestMain(m *testing.M) { stats.Main(m) }
 
 func draw(t *rapid.T) sim.ChainCase {
 	g := sim.GenChain(t, sim.GenOpts{
-		Net:       sim.NetOpts{MaxForkHeight: rapid.SampledFrom([]int{6, 12, 25}).Draw(t, "forkSpan"), V2Only: rapid.IntRange(0, 3).Draw(t, "v2only") == 0},
+		Net: sim.NetOpts{MaxForkHeight: rapid.SampledFrom([]int{6, 12, 25}).Draw(t, "forkSpan"), V2Only: rapid.IntRange(0, 3).Draw(t, "v2only") == 0,
+			EphemeralNear: rapid.SampledFrom([]int{0, 0, 4}).Draw(t, "ephemeralNear")}, // one network in three puts the ephemeral-output rule change a few blocks behind the v2 allow height
 		MinBlocks: 8, MaxBlocks: 30, Reorgs: true, MaxReorg: 3, Profile: sim.Profile{Contracts: 1, MaxTxns: 5},
 		OnBlock: func(g *sim.Gen, b *sim.Builder) {
 			// a contract revised and then revised again / renewed by a later transaction of the same block: the
